@@ -71,8 +71,11 @@ def oracle(c, ob, rng):
     for (col, ops), o in zip([(e[0], e[1]) for e in c['hist']], ob['obs']):
         if 'err' in o:
             created = {op[1] for op in ops if op[0] == 'generate'} | {d[0] for op in ops if op[0] == 'divide' for d in op[2]}
-            removed = {op[1] for op in ops if op[0] in ('delete', 'divide', 'move')}
-            if created & removed and 'is not a valid path' in o['err']:
+            # (a '_move' comes before '_generate' and '_divide': moving what the same update only creates later is
+            # refused by the store, rightly - it is not there yet)
+            removed = {op[1] for op in ops if op[0] in ('delete', 'divide')}
+            moved_early = {op[1] for op in ops if op[0] == 'move'} & created
+            if created & removed and 'is not a valid path' in o['err'] and not moved_early:
                 msgs.append(('an update that creates %r and removes it again raises in Engine.apply_update: %s'
                              % (sorted(created & removed), o['err']), 'created-and-removed-in-one-update'))
                 break
